@@ -39,8 +39,14 @@ Proof. vm_compute. repeat split; reflexivity. Qed.
 
 (* ---- tables from solve() ---- *)
 Definition input_exits : list csite := filter (fun c => streq (nth 0 (c_args c) "") "EXIT_INPUT_ERROR") (calls_of T_calls "ExitInformation").
+(* a message is a string literal, or the variable bounds_error, which solve() binds only to None or to string literals *)
+Definition literal_msg (s : string) : bool := Nat.ltb 2 (String.length s) && prefix "'" s.
+Definition bounds_error_is_literal : bool :=
+  forallb (fun a => streq (a_value a) "None" || literal_msg (a_value a)) (filter (fun a => streq (a_func a) "solve" && streq (a_name a) "bounds_error") T_assigns).
 Definition input_exits_ok : bool :=
-  forallb (fun c => streq (c_func c) "solve" && Nat.ltb 2 (String.length (nth 1 (c_args c) "")) && prefix "'" (nth 1 (c_args c) "")) input_exits &&
+  forallb (fun c => streq (c_func c) "solve" &&
+                    (literal_msg (nth 1 (c_args c) "") ||
+                     (streq (nth 1 (c_args c) "") "bounds_error" && bounds_error_is_literal && has_guard (c_guards c) true "exit_info is None and bounds_error is not None"))) input_exits &&
   Z.leb 18 (Z.of_nat (List.length input_exits)).
 (* the graceful return: OptimResults(None, None, None, None, 0, 0, 0, exit_flag, exit_msg, None, None) under `exit_info is not None`,
    with the constructor's arity, placed before the first run *)
